@@ -1196,9 +1196,9 @@ pub fn check(tier_name: &str, base_seed: u64) -> Outcome {
         },
         "assumptions": [
             "sampling, not proof: a clean batch is evidence only",
-            "context switches are possible only at hook sites and operation boundaries (Miri stage covers other points in the thorough tier)",
-            "the reference is the library itself on a fresh object in a pristine forked process; history-independent wrong answers are out of scope of C18",
-            "bounds: <=4 threads, <=4 objects, <=16 operations per thread, inputs <=40 chars, 60000 hook steps per call",
+            "context switches are possible at hook sites and operation boundaries, in the dense build also at sampled basic-block edges (Miri stage covers other points in the thorough tier); threads the library starts itself are not owned by the scheduler",
+            "the reference is the library itself on a fresh object in a pristine forked process; history-independent wrong answers are out of scope of C18; calls whose reference does not complete within the step budget are not made",
+            "bounds: <=6 threads, <=8 objects, <=24 operations per thread, <=12 live iterators per thread, haystacks <=160 characters (up to 66 KB in the large style), <=65537 calls on one object, 60000 hook steps per call",
         ],
     });
     let _ = std::fs::create_dir_all("/verif/evidence");
